@@ -173,6 +173,15 @@ def check_count(ctx):
            file=PREP, line=pr.lineno)
     gp = [n for n in ast.walk(pr) if isinstance(n, ast.Call) and (dotted(n.func) or '').split('.')[-1] == 'get_query_params']
     ok2 = len(gp) == 1 and len(gp[0].args) == 1 and norm(gp[0].args[0]) == qp
+    # ... and the name still denotes the whole statement there: every rebinding of it before the call is a copy of itself
+    if ok2:
+        rebinds = [n for n in ast.walk(pr) if isinstance(n, ast.Assign) and any(isinstance(t, ast.Name) and t.id == qp for t in n.targets) and n.lineno <= gp[0].lineno]
+        rebinds += [n for n in ast.walk(pr) if isinstance(n, (ast.For, ast.AugAssign)) and any(isinstance(x, ast.Name) and x.id == qp for x in ast.walk(n.target))]
+        whole = all(isinstance(n, ast.Assign) and norm(n.value) in (f'copy.deepcopy({qp})', f'{qp}.copy()', f'copy.copy({qp})', f'deepcopy({qp})') for n in rebinds)
+        ctx.ob('C12.same-statement', 'prepare_steps:collects-from-whole-statement', whole,
+               f'prepare_steps rebinds `{qp}` to a part of the statement ({[norm(n)[:50] for n in rebinds if not (isinstance(n, ast.Assign) and "copy" in norm(n.value))]}) before '
+               f'collecting the placeholders: placeholders outside that part are neither counted nor bound', file=PREP, line=gp[0].lineno,
+               witness='select a from t where b = ? union select a from u where c = ?')
     ctx.ob('C12.same-statement', 'prepare_steps:collects-from-query', ok2,
            f'prepare_steps does not collect placeholders from the statement it was given ({[norm(c) for c in gp]})',
            file=PREP, line=pr.lineno)
